@@ -148,9 +148,11 @@ def check_sweep(case):
         d = 3000
     src = source(name, d)
     outcomes = []
-    limits = case["limits"] if name not in SLOW else sorted({min(s, 20000) for s in case["limits"]})
+    # self-dependent shapes: a limit of 10^6 only adds minutes of frame pushing (and wall-limit inconclusives under load)
+    cap = 20000 if name in SLOW else 100000 if cyclic else None
+    limits = case["limits"] if cap is None else sorted({min(s, cap) for s in case["limits"]})
     for s in limits:
-        r = run_one(src, s, fuel=3_000_000 + 40 * s) if cyclic else run_one(src, s)
+        r = run_one(src, s, fuel=300_000 + 40 * s) if cyclic else run_one(src, s)
         out = classify(r, src, s)
         outcomes.append((s, out))
     # (i) never an exhausted step budget for a self-dependent value
